@@ -43,6 +43,11 @@ theorem imag_only (sin : Int → Cx α) (C : Nat) (a b c : Int) (st : φ) : Only
 theorem imag_inplace_only (A : Nat) (a b c : Int) (st : φ) : Only α [A] st (Gen.Modes_imag_inplace_loop (α := α) A a b c st) := by
   unfold Gen.Modes_imag_inplace_loop; simp only []; repeat frame_step
 
+theorem add_rows_only (a1 a2 : Int → Cx α) (R : Nat) (e1 e2 e3 e4 : Int) (st : φ) : Only α [R] st (Gen.Modes_add_rows (α := α) a1 a2 R e1 e2 e3 e4 st) := by
+  unfold Gen.Modes_add_rows; simp only []; repeat frame_step
+theorem subtract_rows_only (a1 a2 : Int → Cx α) (R : Nat) (e1 e2 e3 e4 : Int) (st : φ) : Only α [R] st (Gen.Modes_subtract_rows (α := α) a1 a2 R e1 e2 e3 e4 st) := by
+  unfold Gen.Modes_subtract_rows; simp only []; repeat frame_step
+
 theorem eth_GHP_only (A : Nat) (s a b : Int) (st : φ) : Only α [A] st (Gen.arr_eth_GHP_loop (α := α) A s a b st) := by
   unfold Gen.arr_eth_GHP_loop; simp only []; repeat frame_step
 theorem ethbar_GHP_only (A : Nat) (s a b : Int) (st : φ) : Only α [A] st (Gen.arr_ethbar_GHP_loop (α := α) A s a b st) := by
